@@ -431,7 +431,7 @@ def rule_e(ctx: Context, R: Reporter):
                                             msg=f"{m.short}: the history append is guarded by `{unparse(t)}`", key=f"commit-guard:{norm_text(t)}")
                                 continue
                             ok = False
-                            if isinstance(t, ast.Compare) and len(t.ops) == 1 and isinstance(t.ops[0], ast.In) and pol:
+                            if isinstance(t, ast.Compare) and len(t.ops) == 1 and ((isinstance(t.ops[0], ast.In) and pol) or (isinstance(t.ops[0], ast.NotIn) and not pol)):
                                 ks = _const_set(mod, t.comparators[0])
                                 ok = ks is not None and set(PARTICLE_FIELDS) <= ks
                             R.check("C07.e", "key filter of the commit keeps every record field", ok, m, t,
